@@ -67,6 +67,8 @@ Model: one prober client popping up to `n` probes at once and failing each (`pop
 implementation's output: the component went quiet, it created no NEW mark without a probe (marks the planted state
 already had unbacked are not its doing), and its queue metrics count what was popped and what had expired. -/
 def handleRunner (initS n : String) (out : List String) : Verdict :=
+  -- `hold|<addr>|<ms>` items (another writer holding the lock for a while in real time) do not exist at the model's level
+  let initS := ",".intercalate ((initS.splitOn ",").filter fun it => !it.startsWith "hold|")
   match kv out "dump", kv out "met", modelRun {} (fun _ => 0) initS s!"pop|{n}|fail" (",".intercalate (List.replicate 400 "c0")) with
   | some idump, some imet, some m =>
     let idump := if idump = "-" then "" else idump
